@@ -1146,8 +1146,16 @@ func main() {
 			return
 		}
 
-		runNames(c)
-		runRaces(c)
+		only := os.Getenv("VERIF_C14_ONLY") // debugging aid: names | races | clean
+		if only == "" || only == "names" {
+			runNames(c)
+		}
+		if only == "" || only == "races" {
+			runRaces(c)
+		}
+		if only != "" && only != "clean" {
+			return
+		}
 
 		n := c.Scale(420, 9000)
 		skipped := 0
